@@ -874,7 +874,14 @@ def rule_unproven_octets_screened(ctx: Ctx, rep: Report) -> None:
     rep.floor(rule, 1)
 
 
+def rule_points_compared_whole_(ctx: Ctx, rep: Report) -> None:
+    """C04.points_compared_whole: a verification equation compares points on both coordinates (see sigcommon.rule_points_compared_whole)."""
+    from rules.sigcommon import rule_points_compared_whole
+    rule_points_compared_whole(ctx, rep, "C04.points_compared_whole", ('btclib.ecc', 'btclib.psbt', 'btclib.script'), 1)
+
+
 RULES = [
+    ("C04.points_compared_whole", rule_points_compared_whole_),
     ("C04.unproven_octets_screened", rule_unproven_octets_screened),
     ("C04.raw_key_admission", rule_raw_key_admission),
     ("C04.fixed_size_library_args", rule_fixed_size_library_args),
